@@ -280,7 +280,13 @@ pub(crate) mod verif_cb {
         if probe_blocked {
             ctx.write().unwrap().set_result(TokenResult::new_blocked(BlockType::Other(3)));
         }
-        entry.read().unwrap().exit();
+        // the entry's exit handlers, invoked as SentinelEntry::exit invokes them (se_exit_runs_handlers_then_chain)
+        {
+            let g = entry.read().unwrap();
+            let n = crate::core::base::entry::verif_entry::run_exit_handlers(&g);
+            assert!(n == 1); // exactly one hook was registered by the transition
+            std::mem::forget(g);
+        }
         let (c, o, h, prev) = notifications();
         if probe_blocked {
             assert!(b.current_state() == State::Open);
